@@ -149,7 +149,7 @@ for _w in (8, 16, 32, 64):      # `self.sort_lms_suffixes::<T, uN>(text, pos_typ
     SA_ABS_LMS["sort_lms_suffixes_u%d" % _w] = dict(lean="sortLms", pre=[str(_w)], reads=["self." + k for k in SA_ALL],
                                                     args=["&[T]", "&PosTypes", "usize"], writes=["self." + k for k in SA_ALL])
 
-unit(name="SrcSaisLms", props="property C03", file=SA_FILE, dialect="gensa", structs=SA_POSTYPES,
+unit(name="SrcSaisLms", props="property C03", file=SA_FILE, dialect="gensa", structs=SA_POSTYPES, imports=["RbV.Gen.SrcPosTypes"],
      functions=[dict(name="Sais::lms_substring_eq", lean="lms_substring_eq",
                      header="fn lms_substring_eq<T: Integer + Unsigned + NumCast + Copy>( &self, text: &[T], "
                             "pos_types: &PosTypes, i: usize, j: usize, ) -> bool",
@@ -179,7 +179,18 @@ unit(name="SrcSaisLms", props="property C03", file=SA_FILE, dialect="gensa", str
                      self_fields=[(k, SA_FIELDS[k]) for k in SA_ALL],
                      params=[("text", "&[T]"), ("pos_types", "&PosTypes"), ("lms_substring_count", "usize")], ret=None,
                      locals={"label": "usize", "prev": "Option<usize>", "reduced_text": "Vec<S>", "lms_pos": "Vec<usize>"},
-                     theorem="RbV.Thm.GenSrcSaisLms.sort_lms_suffixes_eq_model")])
+                     theorem="RbV.Thm.GenSrcSaisLms.sort_lms_suffixes_eq_model"),
+                # `construct`: `PosTypes::new(text)` is the translated `Gen.SrcPosTypes.new`; `self.calc_lms_pos`, `self.calc_pos` abstract
+                dict(name="Sais::construct", lean="construct",
+                     header="fn construct<T: Integer + Unsigned + NumCast + Copy + Debug>(&mut self, text: &[T])",
+                     aliases={"T": "u64"},
+                     path_calls={"PosTypes::new": dict(lean="RbV.Gen.SrcPosTypes.new", args=["&[T]"], ret="PosTypes")},
+                     abs_self_calls={"calc_lms_pos": dict(lean="calcLmsPos", reads=["self." + k for k in SA_ALL],
+                                                          args=["&[T]", "&PosTypes"], writes=["self." + k for k in SA_ALL]),
+                                     "calc_pos": SA_ABS_LMS["calc_pos"]},
+                     self_fields=[(k, SA_FIELDS[k]) for k in SA_ALL],
+                     params=[("text", "&[T]")], ret=None, locals={"pos_types": "PosTypes"},
+                     theorem="RbV.Thm.GenSrcSaisConstruct.constructSrc_eq_model")])
 
 _SA = {}
 
